@@ -139,14 +139,15 @@ def handleCustom (op : String) (j : Json) : R Json := do
     | .deser => pure (cErrJson "deser")
     | .crash => pure (cErrJson "crash")
   | "custom.output.enc" =>
-    let o ← jCOutput (← j.getObjVal? "o")
+    -- "o" holds the constructor ARGUMENTS; the constructed object is `normOutput` of them (`__post_init__`)
+    let o := normOutput (← jCOutput (← j.getObjVal? "o"))
     if outputValid o then
       -- `inscope`: the executable part of `OutputOk` (well-formed amount, 32-byte datum hash, Plutus version 1-3); the
       -- CBOR-representability of the embedded leaf primitives holds for anything that crossed the pipe as CBOR bytes
       let inscope := valueOkB o.amount && (match o.datumHash with | some h => h.length == 32 | none => true) &&
         (match o.script with | some (.plutus v _) => v == 1 || v == 2 || v == 3 | _ => true)
       pure (Json.mkObj [("hex", ofBytes (encOutputBytes rawLeaves o)), ("form", Json.str (if mapForm o then "map" else "legacy")),
-        ("decoded", ofCOutput (decodedOutput o)), ("inscope", Json.bool inscope)])
+        ("decoded", ofCOutput (decodedOutput o)), ("constructed", ofCOutput o), ("inscope", Json.bool inscope)])
     else pure (cErrJson "invalid")
   | "custom.output.dec" =>
     match decOutputBytes rawLeaves (← getBytes j "hex") with
